@@ -228,6 +228,7 @@ pub fn run(run: &Run) {
     drop(distinct);
     run.sample(json!({"term": terms[terms.len() / 2].show()}));
     terms.par_iter().for_each(|r| {
+        let _w = crate::watch::enter(&r.show());
         run.eval(1);
         if let Err(msg) = case(r, &[]) {
             run.violation(&format!("{} : {}", r.show(), msg), json!({"op": "components", "term": r.to_json(), "seed_script": []}), &[]);
@@ -244,6 +245,7 @@ pub fn run(run: &Run) {
     }
     let max_keys = tier.pick(64, 192);
     fam.par_iter().for_each(|r| {
+        let _w = crate::watch::enter(&r.show());
         let make = || r.build();
         env::explore(&make, &|t| R::of_term(t), max_keys, &mut |script, t| {
             run.eval(1);
@@ -260,6 +262,7 @@ pub fn run(run: &Run) {
         let lt = lexu::u_term(&f, 0, tier == crate::report::Tier::Thorough);
         run.add_distinct(lt.len() as u64);
         lt.par_iter().for_each(|x| {
+            let _w = crate::watch::enter(&format!("{x:?}"));
             run.eval(1);
             let res = quiet_catch(AssertUnwindSafe(|| case_lex(&f, x)));
             let res = match res { Ok(x) => x, Err(p) => Err(format!("panic: {p}")) };
@@ -275,6 +278,7 @@ pub fn run(run: &Run) {
     run.add_distinct(hostile.len() as u64);
     for f in fmts::all() {
         hostile.par_iter().for_each(|x| {
+            let _w = crate::watch::enter(&format!("{x:?}"));
             run.eval(1);
             let res = quiet_catch(AssertUnwindSafe(|| case_lex(&f, x)));
             let res = match res { Ok(x) => x, Err(p) => Err(format!("panic: {p}")) };
